@@ -44,6 +44,49 @@ func tierOfCall(call *ssa.Call) string {
 }
 
 func runC31(c *eng.Ctx) {
+
+	// BOUND-volume-size: a cache volume addresses its chunks with needle-map offsets, which cover MaxPossibleVolumeSize
+	// bytes (32GiB with 4-byte offsets); a volume created larger than that reads chunks back from wrapped positions. The
+	// size handed to LoadOrCreateChunkCacheVolume is a constant cap K <= MaxPossibleVolumeSize, or diskSize/segmentCount
+	// computed only where diskSize/K < segmentCount holds (which bounds the quotient by K).
+	if fn := c.NeedFunc("weed/util/chunk_cache", "NewOnDiskCacheLayer"); fn != nil {
+		maxSize, okMax := namedConst(c.P, "weed/storage/types", "MaxPossibleVolumeSize")
+		isCapQuot := func(v ssa.Value) bool { // diskSize / K with K <= max
+			return eng.Mentions(v, 3, func(x ssa.Value) bool {
+				b, ok := x.(*ssa.BinOp)
+				if !ok || b.Op != token.QUO || !eng.IsParam(b.X, "diskSize") {
+					return false
+				}
+				k, isK := eng.ConstInt(b.Y)
+				return isK && k > 0 && k <= maxSize
+			})
+		}
+		fewer := eng.Cmp(isCapQuot, func(v ssa.Value) bool { return eng.IsParam(eng.Unwrap(v), "segmentCount") }, token.LSS)
+		calls := eng.Find(fn, eng.PlainCallTo("chunk_cache.LoadOrCreateChunkCacheVolume"))
+		if len(calls) == 0 || !okMax {
+			c.Undecided("BOUND-volume-size", eng.FuncName(fn), fn.Pos(), "LoadOrCreateChunkCacheVolume call or MaxPossibleVolumeSize not found")
+		}
+		for i, in := range calls {
+			n := 0
+			for _, v := range eng.Resolve(eng.Arg(in.(ssa.CallInstruction), 1)) {
+				n++
+				v = eng.Unwrap(v)
+				key := fmt.Sprintf("%s size#%d value#%d", eng.FuncName(fn), i, n)
+				if k, isK := eng.ConstInt(v); isK {
+					c.Ob("BOUND-volume-size", key, k > 0 && k <= maxSize, in.Pos(), fmt.Sprintf("the constant volume size %d does not exceed what a needle-map offset addresses (%d)", k, maxSize))
+					continue
+				}
+				b, isB := v.(*ssa.BinOp)
+				if !isB || b.Op != token.QUO || !eng.IsParam(b.X, "diskSize") || !eng.Mentions(b.Y, 3, func(x ssa.Value) bool { return eng.IsParam(x, "segmentCount") }) {
+					c.Ob("BOUND-volume-size", key, false, in.Pos(), "unrecognised derivation of the volume size: "+v.String())
+					continue
+				}
+				c.Guard("BOUND-volume-size", key, fn, eng.Entry(fn), []ssa.Instruction{b}, eng.PassEdges(fn, fewer),
+					"diskSize/segmentCount is used as volume size only where diskSize/cap < segmentCount, which keeps it below the cap")
+			}
+		}
+		c.Expect("BOUND-volume-size", 2)
+	}
 	type acc struct {
 		fn    string
 		calls []string
